@@ -1,0 +1,31 @@
+//! Verification hook: dump of one archetype table (read-only).
+
+use super::Archetype;
+use crate::{
+    registry::Registry,
+    verif::TableDump,
+};
+use alloc::vec::Vec;
+
+impl<R> Archetype<R>
+where
+    R: Registry,
+{
+    pub(crate) fn verif_dump(&self) -> TableDump {
+        let mut ids = Vec::with_capacity(self.length);
+        for row in 0..self.length {
+            // SAFETY: the identifier column holds `length` initialised identifiers.
+            let identifier = unsafe { *self.entity_identifiers.0.add(row) };
+            ids.push((identifier.index, identifier.generation));
+        }
+        TableDump {
+            key: self.identifier.verif_address(),
+            // SAFETY: the identifier buffer is owned by this table.
+            bytes: unsafe { self.identifier.as_slice() }.to_vec(),
+            len: self.length,
+            ids,
+            ids_capacity: self.entity_identifiers.1,
+            capacities: self.components.iter().map(|column| column.1).collect(),
+        }
+    }
+}
